@@ -369,6 +369,15 @@ class R1(object):
     def item(self, kind, lid, mode):
         fm = self.prog.flushmodes.get(kind, "ok")
         t = self.now + 1
+        if fm == "nested":
+            # the flush body first calls, synchronously, a function that waits for an item of another kind: if that
+            # kind's flush fails, the failure escapes from this flush body and becomes the error of all its items
+            other = "b" if kind != "b" else "a"
+            om = self.prog.flushmodes.get(other, "ok")
+            if om == "raise":
+                return ("e", ("flush", other), t)
+            if om == "raiseB":
+                return ("e", ("flushB", other), t)
         if fm == "raise":
             return ("e", ("flush", kind), t)
         if fm == "raiseB":
